@@ -92,6 +92,17 @@ class AdjointTape(Interpretation):
             # reverse the effects of alpha-renaming
             with reflect:
                 lazy_output = self._eager_to_lazy[output]
+                # Adjoints are functions of the recipient's and the root's inputs,
+                # identified by name: a variable bound here must not be mistaken
+                # for a free input of the root with the same (un-mangled) name.
+                captured = {name.split("__BOUND")[0] for name in lazy_output.bound}
+                captured &= set(root.inputs)
+                captured -= {name.split("__BOUND")[0] for name in lazy_output.inputs}
+                if captured:
+                    raise NotImplementedError(
+                        "bound variables {} of a {} are named like free inputs of "
+                        "the root".format(sorted(captured), type(lazy_output).__name__)
+                    )
                 lazy_fn = type(lazy_output)
                 lazy_inputs = lazy_output._ast_values
                 # TODO abstract this into a helper function
